@@ -10,3 +10,9 @@ import SpoxModel.Props.C07
 #print axioms C07.generated_overrides_modelled
 #print axioms C07.fold_binding_independent
 #print axioms C07.kept_value_conforms_counterexample
+#print axioms C07.guarded_propagates_nothing
+#print axioms C07.guarded_node_valueless
+#print axioms C07.guarded_standard_step_valueless
+#print axioms C07.guarded_inline_step_valueless
+#print axioms C07.faithful_snoc_valueless
+#print axioms C07.generated_sampling_guarded
